@@ -17,11 +17,11 @@ META = {
     "timeout": {"quick": 300, "thorough": 900}, "parts": {"quick": 16, "thorough": 16}},
   "h_monotone_field": {"kind": "L",
     "functions": ["Line.__init__", "Construction._init_field_value", "Field._parse_gfa_field", "<datatype>.decode / unsafe_decode", "Line.__str__"],
-    "bounds": "12 (record, focus field) templates x every string of length <= 2 (quick) / 3 (thorough) over a 14-character alphabet (letters, signs, digits, '$', ',', ':', space, DEL, a non-ASCII letter; indices chosen by the solver) in the focus field x level k in 1..3: accepted at k => accepted at k-1 (down to 0), and whenever two levels accept they write the same text",
+    "bounds": "12 (record, focus field) templates x every string of length <= 2 (thorough: <= 3 for every third template) over a 14-character alphabet (letters, signs, digits, '$', ',', ':', space, DEL, a non-ASCII letter; indices chosen by the solver) in the focus field x level k in 1..3: accepted at k => accepted at k-1 (down to 0), and whenever two levels accept they write the same text",
     "timeout": {"quick": 400, "thorough": 1200}, "parts": {"quick": 16, "thorough": 16}},
   "h_assignment": {"kind": "L",
     "functions": ["FieldData.set/_set_existing_field", "DynamicFields.__setattr__", "Writer.field_to_s", "Validate.validate_field/validate", "Field._validate_gfa_field"],
-    "bounds": "12 (line, field) targets (incl. the optional fields var of G and eid of E holding '*') (positional, predefined tag, custom tag of datatypes i, Z, A, f, sequence, position, orientation) x value in {0, 1, -1, 5, 10^12, a mixed list, every string of length <= 1 (quick) / 3 (thorough) over the 14-character alphabet} x level 0..3: invalid values are reported at the assignment at level 3, no later than field_to_s at level 2, by validate_field at every level; valid values are never rejected",
+    "bounds": "12 (line, field) targets (incl. the optional fields var of G and eid of E holding '*') (positional, predefined tag, custom tag of datatypes i, Z, A, f, sequence, position, orientation) x value in {0, 1, -1, 5, 10^12, a mixed list, every string of length <= 1 (quick) / 2 (thorough) over the 14-character alphabet} x level 0..3: invalid values are reported at the assignment at level 3, no later than field_to_s at level 2, by validate_field at every level; valid values are never rejected",
     "timeout": {"quick": 400, "thorough": 1200}, "parts": {"quick": 16, "thorough": 16}},
  },
 }
@@ -92,6 +92,7 @@ def h_monotone_field(ti: int, n: int, c0: int, c1: int, c2: int) -> bool:
   pre: 0 <= ti < NT and 0 <= n <= MLEN
   pre: 0 <= c0 < NA and 0 <= c1 < NA and 0 <= c2 < NA
   pre: (n > 0 or c0 == 0) and (n > 1 or c1 == 0) and (n > 2 or c2 == 0)
+  pre: n <= 2 or ti % 3 == 1
   pre: (ti + c0) % NPART == PART
   post: _ == True
   """
@@ -124,7 +125,7 @@ TARGETS = [
   ("G\tg\ta+\tb-\t5\t*", "gfa2", "var", "optional_integer"), ("E\t*\ta+\tb-\t0\t1\t0\t1\t*", "gfa2", "eid", "optional_identifier_gfa2"),
 ]
 NTG = len(TARGETS)
-SLEN = vp.T(1, 3)
+SLEN = vp.T(1, 2)
 MLEN = vp.T(2, 3)
 
 def _valid(dt, v):
